@@ -12,6 +12,7 @@ import (
 	"sort"
 	"strconv"
 	"strings"
+	"sync/atomic"
 	"time"
 
 	"perkeep.org/pkg/blob"
@@ -86,14 +87,14 @@ type loc struct {
 
 func (e *exec) parseLoc(w string) (loc, bool) {
 	if i, ok := parseTok('E', w); ok {
-		if i < len(e.w.blobs.names) {
-			return loc{e.w.blobs, e.w.blobs.names[i]}, true
+		if n, ok := e.w.blobs.nameAt(i); ok {
+			return loc{e.w.blobs, n}, true
 		}
 		return loc{}, false
 	}
 	if i, ok := parseTok('M', w); ok {
-		if i < len(e.w.meta.names) {
-			return loc{e.w.meta, e.w.meta.names[i]}, true
+		if n, ok := e.w.meta.nameAt(i); ok {
+			return loc{e.w.meta, n}, true
 		}
 	}
 	return loc{}, false
@@ -117,10 +118,11 @@ func (e *exec) segs(ws []string) ([]byte, bool) {
 	var out []byte
 	for _, w := range ws {
 		if i, ok := parseTok('E', w); ok {
-			if i >= len(e.w.blobs.names) {
+			n, ok := e.w.blobs.nameAt(i)
+			if !ok {
 				return nil, false
 			}
-			out = append(out, e.w.blobs.names[i]...)
+			out = append(out, n...)
 			continue
 		}
 		if i, ok := parseTok('@', w); ok {
@@ -177,7 +179,7 @@ func (e *exec) canonVal(v string) string {
 		return "x" + hk.Hex([]byte(v))
 	}
 	tail := wordOrHex(parts[1])
-	if n, ok := e.w.blobs.token[parts[1]]; ok {
+	if n, ok := e.w.blobs.tokenNum(parts[1]); ok {
 		tail = fmt.Sprintf("E%d", n)
 	}
 	return wordOrHex(parts[0]) + "/" + tail
@@ -266,13 +268,15 @@ func (e *exec) dump() string {
 	}
 	sort.Strings(idx)
 	var metas, blobs []string
-	for i, n := range e.w.meta.names {
-		if c, ok := e.w.meta.m[n]; ok {
+	mNames, mM := e.w.meta.view()
+	bNames, bM := e.w.blobs.view()
+	for i, n := range mNames {
+		if c, ok := mM[n]; ok {
 			metas = append(metas, fmt.Sprintf("M%d{%s}", i+1, e.showMetaBlob(c)))
 		}
 	}
-	for i, n := range e.w.blobs.names {
-		if c, ok := e.w.blobs.m[n]; ok {
+	for i, n := range bNames {
+		if c, ok := bM[n]; ok {
 			blobs = append(blobs, fmt.Sprintf("E%d>%s", i+1, e.showDataBlob(c)))
 		}
 	}
@@ -282,7 +286,8 @@ func (e *exec) dump() string {
 
 func (e *exec) summary() string {
 	var counts []int
-	for _, c := range e.w.meta.m {
+	_, mM := e.w.meta.view()
+	for _, c := range mM {
 		n := 0
 		if d := e.dec(c); !d.err {
 			if ls, ok := parseMetaText(d.plain); ok {
@@ -296,8 +301,8 @@ func (e *exec) summary() string {
 	for i, c := range counts {
 		cs[i] = strconv.Itoa(c)
 	}
-	return fmt.Sprintf("up=%d idx=%d meta=%d lines=[%s] blobs=%d", b2i(e.up), len(e.w.kv.rows()), len(e.w.meta.m),
-		strings.Join(cs, ","), len(e.w.blobs.m))
+	return fmt.Sprintf("up=%d idx=%d meta=%d lines=[%s] blobs=%d", b2i(e.up), len(e.w.kv.rows()), len(mM),
+		strings.Join(cs, ","), e.w.blobs.count())
 }
 
 func (e *exec) showCall(c call) string {
@@ -317,7 +322,7 @@ func (e *exec) showCall(c call) string {
 
 func (e *exec) callsOp() string {
 	e.w.callsMu.Lock()
-	fresh := e.w.calls[e.callsSeen:]
+	fresh := append([]call(nil), e.w.calls[e.callsSeen:]...)
 	e.callsSeen = len(e.w.calls)
 	e.w.callsMu.Unlock()
 	if len(fresh) == 0 {
@@ -371,11 +376,10 @@ func (e *exec) recv(late bool, ref string, data []byte) string {
 	if !ok {
 		return "badref"
 	}
-	n := 0
+	var n atomic.Int32
 	e.w.meta.mu.Lock()
 	e.w.meta.onRecv = func() {
-		n++
-		if n == 1 {
+		if n.Add(1) == 1 {
 			e.w.kv.metaWritten(late)
 		}
 	}
@@ -421,11 +425,10 @@ func (e *exec) recvOver(ref string, data []byte) string {
 	if !ok {
 		return "badref"
 	}
-	n := 0
+	var n atomic.Int32
 	e.w.meta.mu.Lock()
 	e.w.meta.onRecv = func() {
-		n++
-		if n == 1 {
+		if n.Add(1) == 1 {
 			e.w.kv.metaWritten(false)
 		}
 	}
@@ -476,7 +479,7 @@ func (e *exec) recvOver(ref string, data []byte) string {
 		if !e.w.quiesceBut(1) {
 			outB = "hang"
 		}
-		n = 0
+		n.Store(0)
 		close(st.release)
 		outA = bounded(doneA)
 	case <-time.After(callTimeout):
@@ -639,17 +642,18 @@ func (e *exec) restart(mode, order string) string {
 	if order != "-" {
 		for _, t := range strings.Split(order, ",") {
 			i, ok := parseTok('M', t)
-			if !ok || i >= len(e.w.meta.names) {
+			n, ok2 := e.w.meta.nameAt(i)
+			if !ok || !ok2 {
 				return "bad-op"
 			}
-			names = append(names, e.w.meta.names[i])
+			names = append(names, n)
 		}
 	} else {
 		names = []string{}
 	}
 	// the arrival order must list every meta blob present exactly once, and be one the scan can
 	// produce: at most 5 fetches are in flight, started in enumeration order
-	remaining := e.w.meta.sortedNames()
+	remaining := e.w.meta.SortedNames()
 	if len(names) != len(remaining) {
 		return "bad-op"
 	}
